@@ -22,12 +22,24 @@ def step (s : St) (line : String) : St × String :=
   let u (r : St × Out) : St × String := (r.1, showOut r.2)
   match words line with
   | ["new", b] => ({ budget := b.toNat?.getD 3 }, "ok")
+  | ["new", b, _] => ({ budget := b.toNat?.getD 3 }, "ok")
+  | ["gatedpair", a, b] =>
+    (match bytesOfHex a, bytesOfHex b with
+    | some a, some b =>
+      -- A's write is in progress when the connection breaks: the write loop redials and retries A, then serves B
+      let s1 := { s with failW := true }
+      let (s2, oa) := write s1 a
+      let (s3, ob) := write s2 b
+      let sh (o : Out) := match o with | .wrote _ => "ok" | _ => "err"
+      (s3, "pair " ++ sh oa ++ " " ++ sh ob)
+    | _, _ => (s, "bad-op"))
   | ["script", l] => u (Iscp.Rec.step s (.script (if l = "_" then [] else (l.splitOn ",").map parseDial)))
   | ["write", h] => (match bytesOfHex h with | some b => u (write s b) | none => (s, "bad-op"))
   | ["burst", l] =>
     (match (l.splitOn ",").mapM bytesOfHex with
     | some bs => let (s', outs) := burst s bs []; (s', "burst " ++ joinWith "," (sortStr outs))
     | none => (s, "bad-op"))
+  | ["closeerr"] => (s, "ok")
   | ["failw"] => u (Iscp.Rec.step s .failW)
   | ["failr"] => u (failRead s)
   | ["deliver", h] => (match bytesOfHex h with | some b => u (deliver s b) | none => (s, "bad-op"))
